@@ -173,6 +173,7 @@ AttestNext ==
 \* ---------------------------------------------------------------- attest family: fine grained claims
 ClaimEvents(c) ==
     {[t |-> "ToHub", n |-> n, tok |-> "t1", amt |-> amt, snd |-> "e7", rcv |-> "a3", eh |-> 5, txh |-> "x1"] : n \in 1..2, amt \in {5, 6}}
+    \cup {[t |-> "ToHub", n |-> n, tok |-> "t1", amt |-> 5, snd |-> "e7", rcv |-> "a2", eh |-> 5, txh |-> "x1"] : n \in 1..2}     \* same deposit, another receiver
 ClaimOne ==
     /\ hub.inb
     /\ \E by \in Vals \cup {"a1"}, ev \in ClaimEvents("ethereum") :
